@@ -78,7 +78,7 @@ def enable_remote_registration():
 def disable_remote_registration():
     "Disable remote registration service"
     global _remote_registration
-    _remote_registration = True
+    _remote_registration = False
 
 
 class RegisterRemoteMixin:
